@@ -951,11 +951,20 @@ func (a *typedArrayObject) deleteIdx(idx valueInt, throw bool) bool {
 	return true
 }
 
-func (a *typedArrayObject) stringKeys(all bool, accum []Value) []Value {
-	if accum == nil {
-		accum = make([]Value, 0, a.length)
+// visibleLength is the array length as seen by property enumeration: 0 once the buffer is detached.
+func (a *typedArrayObject) visibleLength() int {
+	if a.viewedArrayBuf.detached {
+		return 0
 	}
-	for i := 0; i < a.length; i++ {
+	return a.length
+}
+
+func (a *typedArrayObject) stringKeys(all bool, accum []Value) []Value {
+	length := a.visibleLength()
+	if accum == nil {
+		accum = make([]Value, 0, length)
+	}
+	for i := 0; i < length; i++ {
 		accum = append(accum, asciiString(strconv.Itoa(i)))
 	}
 	return a.baseObject.stringKeys(all, accum)
@@ -967,7 +976,7 @@ type typedArrayPropIter struct {
 }
 
 func (i *typedArrayPropIter) next() (propIterItem, iterNextFunc) {
-	if i.idx < i.a.length {
+	if i.idx < i.a.visibleLength() {
 		name := strconv.Itoa(i.idx)
 		prop := i.a._getIdx(i.idx)
 		i.idx++
